@@ -12,7 +12,7 @@ CHECKS = {
     "C03": {'level': 'model_checking', 'design': '6 (C03), 3.7', 'text': 'Agreement matrix: TLC compares the bytes of all encoders per message (agree events: who drifts from the canonical layout) and every decoder is run on the canonical bytes the other languages produce; a language whose encoder or decoder deviates is reported per cell.', 'note': "Trusted: the reference codec runtimes and drivers in /verif/runtimes (written for this project; DESIGN 4.4), the target toolchains; values are drawn from the domain MCWire derives. Cells whose emitted code does not build are invisible here and reported under C07. The harness's own reference encoder is not trusted (TLC checks ref = Layout on every message).", 'technique': 'TLC model checking of Wire.tla (MCWire) + TLC-generated programs (DslGen) compiled and run in 5 languages + TLC trace validation (TraceCodec)'},
     "C04": {'level': 'model_checking', 'design': '6 (C04)', 'text': "MCWire invariant LenOf on the specification; WireMachine.tla (operational encoder: work list, zero placeholder, back-patch after the target, "
        "checksum over the prefix written so far) is model-checked to refine Wire!Layout (1.3 M states; AppendOnlyExceptPatch, PrimsDiscipline) and shown sensitive "
-       "(switch MeasureFromPlaceholder); programs with a length-of field of every unsigned width, match and object targets, all payload alternatives incl. empty and > 255 bytes, caller-supplied garbage; TLC validates the length field's bytes in every enc event and the decoded value.", 'note': "Trusted: the reference codec runtimes and drivers in /verif/runtimes (written for this project; DESIGN 4.4), the target toolchains; values are drawn from the domain MCWire derives. Cells whose emitted code does not build are invisible here and reported under C07. The harness's own reference encoder is not trusted (TLC checks ref = Layout on every message).", 'technique': 'TLC model checking of Wire.tla (MCWire) + TLC-generated programs (DslGen) compiled and run in 5 languages + TLC trace validation (TraceCodec)'},
+       "(switch MeasureFromPlaceholder); in the thorough tier Apalache additionally discharges an inductive invariant of the same discipline over unbounded byte counts (LenPatchInd.tla) and tlapm re-checks its TLAPS proof (proofs/LenPatchProof.tla); programs with a length-of field of every unsigned width, match and object targets, all payload alternatives incl. empty and > 255 bytes, caller-supplied garbage; TLC validates the length field's bytes in every enc event and the decoded value.", 'note': "Trusted: the reference codec runtimes and drivers in /verif/runtimes (written for this project; DESIGN 4.4), the target toolchains; values are drawn from the domain MCWire derives. Cells whose emitted code does not build are invisible here and reported under C07. The harness's own reference encoder is not trusted (TLC checks ref = Layout on every message).", 'technique': 'TLC model checking of Wire.tla (MCWire) + TLC-generated programs (DslGen) compiled and run in 5 languages + TLC trace validation (TraceCodec)'},
     "C05": {'level': 'model_checking', 'design': '6 (C05)', 'text': 'MCWire invariants Dispatch / UnknownKeyFails; match tables of 5 forms x 7 key kinds; every key in the table is encoded and decoded (dynamic type of the payload observed), two keys outside the table are decoded (deckey events must report an error).', 'note': "Trusted: the reference codec runtimes and drivers in /verif/runtimes (written for this project; DESIGN 4.4), the target toolchains; values are drawn from the domain MCWire derives. Cells whose emitted code does not build are invisible here and reported under C07. The harness's own reference encoder is not trusted (TLC checks ref = Layout on every message).", 'technique': 'TLC model checking of Wire.tla (MCWire) + TLC-generated programs (DslGen) compiled and run in 5 languages + TLC trace validation (TraceCodec)'},
     "C06": {'level': 'model_checking', 'design': '6 (C06)', 'text': 'MCWire invariant Cksum; checksum fields of 4 widths, registered (VSUM<w>) and unregistered algorithm, followed or last; TLC validates the checksum bytes in enc events and that every recorded calc call covered exactly the bytes preceding a checksum field.', 'note': "Trusted: the reference codec runtimes and drivers in /verif/runtimes (written for this project; DESIGN 4.4), the target toolchains; values are drawn from the domain MCWire derives. Cells whose emitted code does not build are invisible here and reported under C07. The harness's own reference encoder is not trusted (TLC checks ref = Layout on every message).", 'technique': 'TLC model checking of Wire.tla (MCWire) + TLC-generated programs (DslGen) compiled and run in 5 languages + TLC trace validation (TraceCodec)'},
     "C07": {'level': 'exploration', 'design': '6 (C07), 3.8', 'text': "Pipeline.tla's lifecycle (Validate -> RunGen -> WriteFiles -> Build) gives the requirement; TLC-generated programs (every DslGen cell x options) plus name-shape / omitted-package cells are compiled for all six targets; whether the emitted files are valid programs is decided by the target toolchains (go, rustc, javac, g++, python ast, the harness Lua parser); marker texts and member inventories are observed; the recorded lifecycle is validated by TLC against TraceLifecycle.tla.", 'note': 'The deciding observer is the target toolchain, so the level is exploration; reference runtimes define the API; the known findings at this commit are listed by root cause in DESIGN 0.5.', 'technique': 'TLC-generated programs + target toolchains as oracles + TLC validation of the recorded lifecycle (TraceLifecycle)'},
